@@ -167,6 +167,26 @@ def bombs(ctx, res):
                 res.violations.append(vlib.Violation("wide two-level bomb: wrong result", inp, observed=str(rc_)))
             _sh.rmtree(bd, ignore_errors=True)
         res.coverage_extra["linear_time_seconds"] = {str(k): round(v, 2) for k, v in tms.items()}
+        # the same for one tree naming N pairwise DIFFERENT sub-trees, every one of them still unread when the wide tree is read
+        # (git's own order): N = 10 000 and N = 80 000; eight times the objects may cost twenty times the time plus five seconds
+        tmd = {}
+        for nfan in (10000, 80000):
+            ws_ = SP.wide_scenario(nfan, False)
+            worder_ = ws_.enum_gitlike([x for _, x in sorted(ws_.refs)])
+            t0 = time.time()
+            try:
+                rc_, out_, err_, _ = eng.run_fake(ws_, worder_, [], [], timeout=20 * tmd.get(10000, 30) + 5 if nfan != 10000 else 300)
+            except Exception:
+                rc_, out_ = "timeout", b""
+            tmd[nfan] = time.time() - t0
+            res.case(("linear-time-distinct", nfan), True)
+            inp = {"scenario": "one tree naming %d different one-file sub-trees, read before any of them" % nfan, "seconds": {str(k): round(v, 2) for k, v in tmd.items()}}
+            if rc_ != 0 and (rc_ == "timeout" or tmd[nfan] >= 20 * tmd.get(10000, 30) + 4):
+                res.violations.append(vlib.Violation("the scan does not take time proportional to the number of distinct objects", inp,
+                                                     expected="at most 20 x the time for 10000 sub-trees + 5 s", observed="still running"))
+            elif rc_ != 0 or json.loads(out_)["max_expanded_blob_count"] != nfan or json.loads(out_)["unique_tree_count"] != nfan + 3:
+                res.violations.append(vlib.Violation("wide tree of distinct sub-trees: wrong result", inp, observed=str(rc_)))
+        res.coverage_extra["linear_time_distinct_seconds"] = {str(k): round(v, 2) for k, v in tmd.items()}
         SP.wide_cases(eng, res, S.HIST_KEYS, "saturation", True, rng0)
         # one sub-tree named k times with totals at and next to floor(capacity / k): products that land exactly on, just below
         # and just above 2^64-1 (bytes) and 2^32-1 (files), for k = 2..10 — whether k additions or one multiplication are used
